@@ -471,9 +471,13 @@ def check(ck: Check) -> None:
         "pycommons ceil_div(a, b) = -((-a) // b) modelled with Int.fdiv",
     ]
     ck.not_proved += [
-        "int64 representability is not part of the theorems: they are about the documented integer value; spec_range shows every "
-        "value lies in [0, n_items*W*H], so the kernels are exact whenever n_items*W*H < 2^63; beyond that the real kernels wrap "
-        "(int64_wrap_witness; spec-oracle key int64-wrap)",
+        "int64 representability is not part of the value theorems: they are about the documented integer value; spec_range shows "
+        "the result and its two summands lie in [0, n_items*scale] (scale = 1, n_items, W*H), so the kernels cannot wrap on them "
+        "whenever n_items*W*H < 2^63; partial sums inside the loops are not traced (all increments are non-negative on feasible "
+        "packings); beyond that range the real kernels wrap (theorem int64_wrap_witness; spec-oracle key int64-wrap, a known finding)",
+        "obj_within_bounds assumes lbGeo I <= lbBins <= k for the instance's lower_bound_bins (the second inequality is property "
+        "C03); it is unconditional for lbBins = lbGeo I (obj_within_bounds_geo)",
+        "the number of rounds of the skyline sweep (<= 2n+1) is not stated; termination is proved (strict progress of cur_left)",
     ]
     ck.lean(["Props.C02"], THEOREMS)
     streams(ck)
